@@ -517,13 +517,13 @@ func genInvalidCandidate(t *rapid.T) string {
 
 func TestC05_ParseValid(t *testing.T) {
 	thorough := cfg.tier == "thorough"
-	runRapid(t, 60000, 3000000, func(t *rapid.T) {
+	runRapid(t, 60000, 1500000, func(t *rapid.T) {
 		c05.Run(t, c05Args{S: genValidLiteral(t, thorough)})
 	})
 }
 
 func TestC05_ParseInvalid(t *testing.T) {
-	runRapid(t, 60000, 2000000, func(t *rapid.T) {
+	runRapid(t, 60000, 1200000, func(t *rapid.T) {
 		c05.Run(t, c05Args{S: genInvalidCandidate(t)})
 	})
 }
